@@ -207,6 +207,10 @@ theorem C08_loop_names_resolve (t : Mod) (h : t.namesOk = true) :
     ∀ pm ∈ t.named, t.at? pm.1 = some pm.2 :=
   named_resolves t h
 
+/-- no dotted name is yielded twice: every `set_module_by_name` of the loop has its own target -/
+theorem C08_loop_names_distinct (t : Mod) (h : t.namesOk = true) : (t.named.map (·.1)).Nodup :=
+  named_paths_nodup t h
+
 /-- one iteration never touches anything for a container or an unselected / ineligible leaf -/
 theorem C08_loop_step_skips (a : QuantizeArgs) (cur : Mod) (p : List String) (id : Nat) (k : LeafKind)
     (q : Option QCfg) (h : (selected a id && eligible a k) = false) :
